@@ -156,6 +156,7 @@ func runHistory(c *fw.Ctx, h *History, count bool) *divergence {
 	slack := 0 // array slots left behind by direct t[#t]=nil (root cause of finding C18-remove-trailing-nil-slot)
 	kinds := map[string]bool{}
 	removed := false
+	final := false
 	for si, op := range h.Ops {
 		n := len(model)
 		var want []lua.LValue
@@ -178,6 +179,15 @@ func runHistory(c *fw.Ctx, h *History, count bool) *divergence {
 			copy(model[p:], model[p-1:])
 			model[p-1] = v
 			got, o = gl.Call(L, e.insert, t, lua.LNumber(p), v)
+		case "inspnil":
+			// nil as the inserted value still shifts t[pos..n] up (the list then has a
+			// hole, so this is the last operation of a history; only the slots are compared)
+			p := op.Pos
+			model = append(model, lua.LNil)
+			copy(model[p:], model[p-1:])
+			model[p-1] = lua.LNil
+			got, o = gl.Call(L, e.insert, t, lua.LNumber(p), lua.LNil)
+			final = true
 		case "rem":
 			if n == 0 {
 				want = []lua.LValue{lua.LNil}
@@ -312,6 +322,9 @@ func runHistory(c *fw.Ctx, h *History, count bool) *divergence {
 				return mk(fmt.Sprintf("t[%d]=%s", k, canon([]lua.LValue{w})), fmt.Sprintf("t[%d]=%s", k, canon([]lua.LValue{g})))
 			}
 		}
+		if final {
+			break
+		}
 		lres, lo := gl.Call(L, e.lenf, t)
 		if lo.Err != nil || lo.GoPanic != nil || len(lres) != 1 || lres[0] != lua.LNumber(n) {
 			return mk(fmt.Sprintf("#t=%d", n), "#t="+canon(lres))
@@ -339,6 +352,30 @@ func lessLV(a, b lua.LValue) bool {
 }
 
 func genHistory(r *rand.Rand) *History {
+	h := genHistory0(r)
+	if r.Intn(12) == 0 {
+		// how long is the list now? replay the history on the length only
+		n := 0
+		for _, op := range h.Ops {
+			switch op.Op {
+			case "ins", "insp", "appendd":
+				n++
+			case "bulk":
+				n += op.K
+			case "rem", "remp", "popd":
+				if n > 0 {
+					n--
+				}
+			}
+		}
+		if n >= 1 {
+			h.Ops = append(h.Ops, Op{Op: "inspnil", Pos: 1 + r.Intn(n)})
+		}
+	}
+	return h
+}
+
+func genHistory0(r *rand.Rand) *History {
 	h := &History{Kind: []string{"num", "num", "str", "mixed"}[r.Intn(4)]}
 	nops := 10 + r.Intn(111)
 	if r.Intn(10) == 0 {
